@@ -1172,6 +1172,8 @@ fn handle_fn(
                 let spec = e["spec"].as_str().unwrap_or("");
                 let head_h = e["head"].as_str().unwrap_or("");
                 let pre_push = e["pre_push"].as_str().unwrap_or("");
+                // `chain N flat: f` wraps what a flat_map closure returns in f(..) (any IntoIterator -> Vec of its items)
+                let flat_fn = e["flat"].as_str().unwrap_or("").trim().to_string();
                 let after = e["after"].as_str().unwrap_or("");
                 let elem_ty = e["elem"].as_str().unwrap_or("");
                 // The closure bodies stay where they are (so other edits inside them still apply); only the text around
@@ -1238,9 +1240,9 @@ fn handle_fn(
                             k += 1;
                         }
                         "flat_map" => {
-                            t.push_str(&format!("let mut {} = ", nextv));
+                            t.push_str(&format!("let mut {} = {}(", nextv, flat_fn));
                             call(&mut t, &mut parts, false)?;
-                            t.push_str("; ");
+                            t.push_str("); ");
                             k += 1;
                             flat = true;
                         }
